@@ -96,7 +96,11 @@ type RaceReport struct {
 }
 
 func binFor(variant string) string {
-	b := filepath.Join(VerifRoot(), "bin", "verifctl")
+	dir := filepath.Join(VerifRoot(), "bin")
+	if d := os.Getenv("VERIF_BIN_DIR"); d != "" {
+		dir = d
+	}
+	b := filepath.Join(dir, "verifctl")
 	if variant != "default" {
 		b += "-" + variant
 	}
